@@ -82,6 +82,18 @@ class Script:
         self.peer(20, 0, command("connect", r.choice([1, 1, 2, 0, 1.5]), Obj(props), []))
         self.req += 1
 
+    def second_connect(self):
+        """a further connect request on a session that already has an accepted connection, refused (or, in noisy scripts,
+        sometimes accepted) by the application: refusing it must not disturb the accepted connection"""
+        r = self.rng
+        app = r.choice(APPS[:6])
+        self.peer(20, 0, command("connect", r.choice([1, 2, 9]), Obj([("app", S(app))]), []))
+        self.req += 1
+        if self.clean or r.chance(4, 5):
+            self.app("reject %d %d %s %s" % (self.tick(), self.req - 1, hexs(b"NetConnection.Connect.Rejected"), hexs(b"busy")))
+        else:
+            self.app("accept %d %d" % (self.tick(), self.req - 1))
+
     def create_stream(self):
         self.peer(20, 0, command("createStream", self.rng.choice([2, 3, 7, 0]), NULL, []))
         self.streams.append(self.next_stream)
@@ -239,12 +251,16 @@ def gen_script(rng, tier):
             s.reject()
         for _ in range(r.range(0, 2)):
             s.control()
+        if r.chance(1, 6):
+            s.second_connect()
         s.create_stream()
         sid = s.streams[-1]
         if r.chance(1, 2):
             s.publish(sid)
             if clean or r.chance(5, 6):
                 s.accept()
+            if r.chance(1, 6):
+                s.second_connect()
             for _ in range(r.range(0, 8)):
                 if r.chance(1, 6):
                     s.control()
@@ -263,6 +279,8 @@ def gen_script(rng, tier):
             s.play(sid)
             if clean or r.chance(5, 6):
                 s.accept()
+            if r.chance(1, 6):
+                s.second_connect()
             for _ in range(r.range(0, 6)):
                 s.app_media() if r.chance(3, 4) else s.control()
             if r.chance(1, 2):
